@@ -76,6 +76,7 @@ def form_a(draw):
         "shapes": shapes,
         "aseed": draw(st.integers(0, 99)),
         "optimize": draw(st.sampled_from(["auto", "greedy"])),
+        "via": draw(st.sampled_from(["einsum", "einsum", "einsum_expression", "einsum_tree"])),
     }
 
 
@@ -228,8 +229,22 @@ def run_case(spec, sub=None):
             exp = np.einsum(eq, *arrays)
         except Exception:
             return Outcome([], False, cls + ["numpy_rejects"])
-        ok, got = guarded(ctg.einsum, eq, *arrays, optimize=spec["optimize"], **kw)
-        what = f"einsum('{eq}', shapes {[tuple(s) for s in spec['shapes']]})"
+        via = spec.get("via", "einsum")
+        shp = [tuple(s) for s in spec["shapes"]]
+        if via == "einsum_expression":
+            ok, got = guarded(
+                lambda: ctg.einsum_expression(eq, *shp, optimize=spec["optimize"], cache=False)(*arrays)
+            )
+        elif via == "einsum_tree" and len(arrays) >= 2:
+            # the tree (built from the parsed equation) must contract to numpy's value
+            ok, got = guarded(
+                lambda: ctg.einsum_tree(eq, *shp, optimize=spec["optimize"]).contract(arrays)
+            )
+        else:
+            via = "einsum"
+            ok, got = guarded(ctg.einsum, eq, *arrays, optimize=spec["optimize"], **kw)
+        cls.append(f"via={via}")
+        what = f"{via}('{eq}', shapes {shp})"
         if not ok:
             viol.append(f"{what} raised {got}; numpy accepts it")
         else:
